@@ -6,6 +6,7 @@ import (
 	"encoding/xml"
 	"fmt"
 	"strings"
+	"time"
 )
 
 // Executable transcription of the augmented-diff part of C03 for
@@ -101,4 +102,105 @@ func oracleC03RootAttrs(present int, rot int, change bool) {
 	vAssert(xml.Unmarshal([]byte(doc), &o) == nil)
 	vAssert(o.Version == vals["version"] && o.Generator == vals["generator"] && o.Copyright == vals["copyright"] && o.Attribution == vals["attribution"] && o.License == vals["license"])
 	vAssert(len(o.Nodes) == 1)
+}
+
+// C03, elements: a document written by an independent writer (string building
+// from a small model) with nodes, ways, relations, a changeset with discussion,
+// a note and a user - attributes in rotating order, unknown attributes, entity
+// escapes, self-closing and open/close forms - decodes to exactly the model.
+//
+//@ func oracleC03Elements
+//@   props C03
+//@   oracle
+//@   covers (schema)C03#format
+//@   covers osm.Date
+func oracleC03Elements(seed int, rot int, selfClose bool, withUnknown bool) {
+	abs := func(x int) int {
+		if x < 0 {
+			if x == -x {
+				return 0
+			}
+			return -x
+		}
+		return x
+	}
+	s := abs(seed)
+	r := abs(rot)
+	attrs := func(kv ...string) string { // kv: name, value pairs; rotated; values escaped
+		n := len(kv) / 2
+		var parts []string
+		for i := 0; i < n; i++ {
+			j := (i + r) % n
+			v := strings.NewReplacer("&", "&amp;", "<", "&lt;", `"`, "&quot;").Replace(kv[2*j+1])
+			parts = append(parts, kv[2*j]+`="`+v+`"`)
+		}
+		if withUnknown {
+			parts = append(parts, `zz_unknown="1"`)
+		}
+		return strings.Join(parts, " ")
+	}
+	id := int64(s%1000 + 1)
+	user := `a&b <"c">`
+	ts := "2012-01-02T03:04:05Z"
+	tag := func(k, v string) string {
+		if selfClose {
+			return `<tag ` + attrs("k", k, "v", v) + `/>`
+		}
+		return `<tag ` + attrs("k", k, "v", v) + `></tag>`
+	}
+	meta := func(i int64) []string {
+		return []string{"id", fmt.Sprint(i), "user", user, "uid", fmt.Sprint(i + 7), "visible", "true", "version", fmt.Sprint(i%5 + 1), "changeset", fmt.Sprint(i + 100), "timestamp", ts}
+	}
+	var b strings.Builder
+	b.WriteString(`<?xml version="1.0" encoding="UTF-8"?><osm version="0.6"><!-- c -->` + "\n")
+	b.WriteString(`<bounds ` + attrs("minlat", "1.5", "minlon", "2.5", "maxlat", "3.5", "maxlon", "4.5") + `/>`)
+	b.WriteString(`<node ` + attrs(append(meta(id), "lat", "10.5", "lon", "-20.25")...) + `>` + tag("name", "x&y") + tag("k2", "") + `</node>`)
+	b.WriteString(`<way ` + attrs(meta(id+1)...) + `><nd ` + attrs("ref", fmt.Sprint(id)) + `/><nd ` + attrs("ref", fmt.Sprint(id+5)) + `/>` + tag("highway", "path") + `<zz_unknown/></way>`)
+	b.WriteString(`<relation ` + attrs(meta(id+2)...) + `><member ` + attrs("type", "way", "ref", fmt.Sprint(id+1), "role", "outer") + `/><member ` + attrs("type", "node", "ref", fmt.Sprint(id), "role", "") + `/>` + tag("type", "multipolygon") + `</relation>`)
+	b.WriteString(`<changeset ` + attrs("id", fmt.Sprint(id+3), "user", user, "uid", "9", "created_at", ts, "closed_at", ts, "open", "false", "min_lat", "1", "min_lon", "2", "max_lat", "3", "max_lon", "4", "comments_count", "1") + `>` + tag("comment", "c") +
+		`<discussion><comment ` + attrs("date", ts, "uid", "5", "user", user) + `><text>hello &amp; bye</text></comment></discussion></changeset>`)
+	b.WriteString(`<note ` + attrs("lat", "5.5", "lon", "6.5") + `><id>` + fmt.Sprint(id+4) + `</id><url>u</url><comment_url>cu</comment_url><close_url>xu</close_url><date_created>2019-06-15 08:26:04 UTC</date_created><status>open</status>` +
+		`<comments><comment><date>2019-06-15 08:26:04 UTC</date><uid>3</uid><user>n&amp;m</user><user_url>uu</user_url><action>opened</action><text>t</text><html>h</html></comment></comments></note>`)
+	b.WriteString(`<user ` + attrs("id", fmt.Sprint(id+5), "display_name", user, "account_created", ts) + `><description>d</description><languages><lang>en</lang><lang>de</lang></languages></user>`)
+	b.WriteString(`</osm>`)
+
+	var o OSM
+	err := xml.Unmarshal([]byte(b.String()), &o)
+	vAssert(err == nil)
+	if err != nil {
+		return
+	}
+	vAssert(o.Bounds != nil && o.Bounds.MinLat == 1.5 && o.Bounds.MinLon == 2.5 && o.Bounds.MaxLat == 3.5 && o.Bounds.MaxLon == 4.5)
+	vAssert(len(o.Nodes) == 1 && len(o.Ways) == 1 && len(o.Relations) == 1 && len(o.Changesets) == 1 && len(o.Notes) == 1 && len(o.Users) == 1)
+	if len(o.Nodes) != 1 || len(o.Ways) != 1 || len(o.Relations) != 1 || len(o.Changesets) != 1 || len(o.Notes) != 1 || len(o.Users) != 1 {
+		return
+	}
+	at := time.Date(2012, 1, 2, 3, 4, 5, 0, time.UTC)
+	n := o.Nodes[0]
+	vAssert(int64(n.ID) == id && n.Lat == 10.5 && n.Lon == -20.25 && n.User == user && int64(n.UserID) == id+7 && n.Visible && n.Version == int(id%5+1) && int64(n.ChangesetID) == id+100 && n.Timestamp.Equal(at))
+	vAssert(len(n.Tags) == 2 && n.Tags[0].Key == "name" && n.Tags[0].Value == "x&y" && n.Tags[1].Key == "k2" && n.Tags[1].Value == "")
+	w := o.Ways[0]
+	vAssert(int64(w.ID) == id+1 && w.User == user && int64(w.UserID) == id+8 && w.Visible && int64(w.ChangesetID) == id+101 && w.Timestamp.Equal(at))
+	vAssert(len(w.Nodes) == 2 && int64(w.Nodes[0].ID) == id && int64(w.Nodes[1].ID) == id+5 && len(w.Tags) == 1 && w.Tags[0].Key == "highway" && w.Tags[0].Value == "path")
+	rl := o.Relations[0]
+	vAssert(int64(rl.ID) == id+2 && rl.User == user && rl.Visible && rl.Timestamp.Equal(at))
+	vAssert(len(rl.Members) == 2 && rl.Members[0].Type == TypeWay && rl.Members[0].Ref == id+1 && rl.Members[0].Role == "outer" && rl.Members[1].Type == TypeNode && rl.Members[1].Ref == id && rl.Members[1].Role == "")
+	vAssert(len(rl.Tags) == 1 && rl.Tags[0].Key == "type" && rl.Tags[0].Value == "multipolygon")
+	cs := o.Changesets[0]
+	vAssert(int64(cs.ID) == id+3 && cs.User == user && cs.UserID == 9 && cs.CreatedAt.Equal(at) && cs.ClosedAt.Equal(at) && !cs.Open && cs.MinLat == 1 && cs.MinLon == 2 && cs.MaxLat == 3 && cs.MaxLon == 4 && cs.CommentsCount == 1)
+	vAssert(len(cs.Tags) == 1 && cs.Tags[0].Key == "comment" && cs.Discussion != nil && len(cs.Discussion.Comments) == 1)
+	if cs.Discussion != nil && len(cs.Discussion.Comments) == 1 {
+		c := cs.Discussion.Comments[0]
+		vAssert(c.User == user && c.UserID == 5 && c.Timestamp.Equal(at) && c.Text == "hello & bye")
+	}
+	nt := o.Notes[0]
+	nat := time.Date(2019, 6, 15, 8, 26, 4, 0, time.UTC)
+	vAssert(int64(nt.ID) == id+4 && nt.Lat == 5.5 && nt.Lon == 6.5 && nt.URL == "u" && nt.CommentURL == "cu" && nt.CloseURL == "xu" && nt.Status == "open" && nt.DateCreated.Equal(nat))
+	vAssert(len(nt.Comments) == 1)
+	if len(nt.Comments) == 1 {
+		c := nt.Comments[0]
+		vAssert(c.Date.Equal(nat) && c.UserID == 3 && c.User == "n&m" && c.UserURL == "uu" && c.Action == "opened" && c.Text == "t" && c.HTML == "h")
+	}
+	u := o.Users[0]
+	vAssert(int64(u.ID) == id+5 && u.Name == user && u.CreatedAt.Equal(at) && u.Description == "d" && len(u.Languages) == 2)
 }
